@@ -243,6 +243,17 @@ func (cx *Ctx) InstallStdlib2() {
 	in["strings.Index"] = idx(false)
 	in["strings.LastIndex"] = idx(true)
 	in["strings.Split"] = func(fx *FnExec, fr *Frame, call *ssa.CallCommon, args []Value, st *State, site string, k func(*State, Value)) {
+		if parts, ok := fx.splitExact(st, args[0].(StrV), args[1].(StrV)); ok {
+			o := fx.Cx.NewObj("strings.Split", types.NewSlice(types.Typ[types.String]), ProvFresh)
+			es := make([]Value, len(parts))
+			for i, p := range parts {
+				es[i] = p
+			}
+			st.Heap[o] = ArrS{es}
+			n := BV64(uint64(len(parts)))
+			k(st, SliceV{Nil: False, Obj: o, Off: BV64(0), Len: n, Cap: n})
+			return
+		}
 		n := fx.Cx.Fresh("split.n", BV(64))
 		s := args[0].(StrV)
 		st.Assume(And(ULe(BV64(1), n), ULe(n, Add(s.Len, BV64(1)))))
@@ -297,6 +308,36 @@ func (cx *Ctx) InstallStdlib2() {
 		}
 		fx.Cx.Note("strconv.Atoi on strings longer than one character: value abstracted")
 		k(st, TupleV{[]Value{Scalar{Ite(e, BV64(0), v)}, ErrV{Ite(e, BVC(8, ErrOther), BVC(8, ErrNil))}}})
+	}
+	in["strconv.ParseUint"] = func(fx *FnExec, fr *Frame, call *ssa.CallCommon, args []Value, st *State, site string, k func(*State, Value)) {
+		s := args[0].(StrV)
+		base := args[1].(Scalar).T
+		bits := args[2].(Scalar).T
+		if s.Len.IsConst() && s.Len.Val >= 1 && s.Len.Val <= 9 && base.IsConst() && base.Val == 10 && bits.IsConst() && bits.Val > 0 && bits.Val <= 32 {
+			// exact: all characters digits and the value fits
+			val := BV64(0)
+			okc := True
+			for i := uint64(0); i < s.Len.Val; i++ {
+				c := s.C.Elem(Add(s.Off, BV64(i)))
+				okc = And(okc, isDigit(c))
+				val = Add(Mul(val, BV64(10)), ZExt(64, Sub(c, BVC(8, '0'))))
+			}
+			lim := BV64(uint64(1)<<bits.Val - 1)
+			okc = And(okc, ULe(val, lim))
+			// on range error ParseUint returns the maximum value; on syntax error 0
+			k(st, TupleV{[]Value{Scalar{Ite(okc, val, BV64(0))}, ErrV{Ite(okc, BVC(8, ErrNil), BVC(8, ErrOther))}}})
+			if !okc.IsTrue() {
+				fx.Cx.Note("strconv.ParseUint: the value returned together with an error is modelled as 0")
+			}
+			return
+		}
+		v := fx.Cx.Fresh("parseuint", BV(64))
+		e := fx.Cx.Fresh("parseuint.err", Bool)
+		if bits.IsConst() && bits.Val > 0 && bits.Val < 64 {
+			st.Assume(Implies(Not(e), ULt(v, BV64(uint64(1)<<bits.Val))))
+		}
+		fx.Cx.Note("strconv.ParseUint on a string of unknown shape: value abstracted, constrained to the bit size on success")
+		k(st, TupleV{[]Value{Scalar{v}, ErrV{Ite(e, BVC(8, ErrOther), BVC(8, ErrNil))}}})
 	}
 	in["strconv.ParseInt"] = func(fx *FnExec, fr *Frame, call *ssa.CallCommon, args []Value, st *State, site string, k func(*State, Value)) {
 		v := fx.Cx.Fresh("parseint", BV(64))
@@ -510,4 +551,46 @@ func (cx *Ctx) InstallStdlib2() {
 		k(st, TupleV{[]Value{SliceV{Nil: False, Obj: o, Off: BV64(0), Len: BV64(16), Cap: BV64(16)}, errV(ErrNil)}})
 	}
 	_ = fmt.Sprintf
+}
+
+// splitExact models strings.Split exactly when the string has an explicit constant length and, for every position,
+// the state decides whether the separator (one constant character) occurs there.
+func (fx *FnExec) splitExact(st *State, s, sep StrV) ([]StrV, bool) {
+	if !s.Len.IsConst() || !s.Off.IsConst() || s.Len.Val > 64 || !sep.Len.IsConst() || sep.Len.Val != 1 {
+		return nil, false
+	}
+	c := sep.C.Elem(sep.Off)
+	if !c.IsConst() {
+		return nil, false
+	}
+	var parts []StrV
+	start := uint64(0)
+	for i := uint64(0); i < s.Len.Val; i++ {
+		e := Eq(s.C.Elem(Add(s.Off, BV64(i))), c)
+		is, decided := false, false
+		switch {
+		case e.IsTrue():
+			is, decided = true, true
+		case e.IsFalse():
+			decided = true
+		default:
+			for _, p := range st.PC {
+				if p == e {
+					is, decided = true, true
+				}
+				if p.Op == "not" && p.Args[0] == e {
+					decided = true
+				}
+			}
+		}
+		if !decided {
+			return nil, false
+		}
+		if is {
+			parts = append(parts, StrV{C: s.C, Off: Add(s.Off, BV64(start)), Len: BV64(i - start)})
+			start = i + 1
+		}
+	}
+	parts = append(parts, StrV{C: s.C, Off: Add(s.Off, BV64(start)), Len: BV64(s.Len.Val - start)})
+	return parts, true
 }
